@@ -448,6 +448,37 @@ class Generator:
         sig[fi + 1] = tr + '__' + sig[fi + 1]
         log['R17'] = log.get('R17', 0) + 1
         selfty = t[t.index('for') + 1:]
+        if selfty and selfty[0] in R.BNUM_TYPES and t[1] == '<':
+            # R17g: a generic parameter of the impl that occurs only in the trait's arguments
+            # (`impl<const N: usize, const M: usize> AsPrimitive<BUint<M>> for BInt<N>`) would be unconstrained on the
+            # inherent impl (E0207): it moves to the generic parameter list of the method
+            params, cur, d = [], [], 0
+            for x in t[2:i - 1]:
+                if x in ('<', '(', '['):
+                    d += 1
+                elif x in ('>', ')', ']'):
+                    d -= 1
+                if x == ',' and d == 0:
+                    params.append(cur)
+                    cur = []
+                else:
+                    cur.append(x)
+            if cur:
+                params.append(cur)
+            keep = [p_ for p_ in params if (p_[1] if p_[0] == 'const' else p_[0]) in selfty]
+            move = [p_ for p_ in params if p_ not in keep]
+            if move:
+                def join(ps):
+                    o = []
+                    for p_ in ps:
+                        o += (o and [',']) + p_
+                    return o
+                impl2 = ' '.join(['impl'] + ((['<'] + join(keep) + ['>']) if keep else []) + selfty)
+                if sig[fi + 2] == '<':
+                    sig[fi + 3:fi + 3] = join(move) + [',']
+                else:
+                    sig[fi + 2:fi + 2] = ['<'] + join(move) + ['>']
+                log['R17g'] = 1
         if selfty and selfty[0] in R.BNUM_TYPES and self.x.impl_types.get(impl):
             # `Self::Error` etc.: an inherent impl cannot declare associated types -> their definitions
             amap0 = {}
@@ -501,6 +532,18 @@ class Generator:
             sig = rw(sig)
             body = rw(body)
             fi = sig.index('fn')
+            # a receiver (`fn as_(self)` of `impl AsPrimitive<BUint<N>> for u8`): a free fn has none -> the ordinary
+            # parameter `self__: T` / `self__: &T`
+            pi = sig.index('(', fi)
+            if sig[pi + 1] == 'self':
+                sig[pi + 1:pi + 2] = ['self__', ':'] + selfty
+            elif sig[pi + 1:pi + 3] == ['&', 'self']:
+                sig[pi + 1:pi + 3] = ['self__', ':', '&'] + selfty
+            elif 'self' in sig[pi:]:
+                raise R.Unsupported('ext_trait free fn: receiver form ' + ' '.join(sig[pi:pi + 4]))
+            if 'self__' in sig:
+                body = ['self__' if x == 'self' else x for x in body]
+                log['R17s'] = 1
             if gens:
                 if sig[fi + 2] == '<':
                     sig[fi + 3:fi + 3] = gens + [',']
